@@ -81,8 +81,17 @@ def run(ctx):
             I = interval.Interp(interval.default_pre)
             node = inl.inline(e.fn, e.args())
             iv = I.of(ir.outputs(node)[0])
-            ctx.ob("C13.range", e.name, iv.within(lo, hi),
-                   f"value range {iv} is not inside [{_f(lo)}, {_f(hi)}]", {"interval": repr(iv), "expr": ir.show(node)[:300]},
+            proven = iv.within(lo, hi)
+            cex = None
+            if not proven:
+                # an over-approximation that does not fit is not a refutation: look for a concrete point of the storage domain
+                cex = interval.find_counterexample(ir.outputs(node)[0], lo, hi)
+                if cex is None:
+                    raise AnalysisError(f"UNDECIDED C13.range {e.name}: interval {iv} does not prove [{_f(lo)}, {_f(hi)}] and no counterexample was found "
+                                        f"(expression {ir.show(node)[:160]})")
+            ctx.ob("C13.range", e.name, proven,
+                   f"value {cex.get('value', cex.get('problem')) if cex else ''} at {cex['point'] if cex else ''} is outside [{_f(lo)}, {_f(hi)}]",
+                   {"counterexample": cex, "interval": repr(iv), "expr": ir.show(node)[:300]},
                    fn_where(e.fn), sample={"interval": repr(iv), "expr": ir.show(node)[:160]})
             top = ir.outputs(node)[0]
             top_txt = ir.show(top.a[1][0])[:100] if top.kind == "lib" and top.a[1] else None
@@ -92,8 +101,13 @@ def run(ctx):
                     if not ok and (short, fn) in RELATIONAL:
                         undecided.add(f"{short}: {fn} argument needs the relational fact {RELATIONAL[(short, fn)]}")
                         continue
+                    cex = None
+                    if not ok:
+                        cex = interval.find_counterexample(top, -INF, INF)
+                        if cex is None or "problem" not in cex:
+                            raise AnalysisError(f"UNDECIDED C13.defined {e.name}: {fn} argument ranges over {arg}; not provable and no counterexample found")
                     ctx.ob("C13.defined", f"{e.name}:{fn}({txt[:60]})", ok,
-                           f"argument of {fn} ranges over {arg}, outside the function's domain", None, fn_where(e.fn))
+                           f"{cex['problem'] if cex else ''} at {cex['point'] if cex else ''}", {"counterexample": cex}, fn_where(e.fn))
     # t from tau
     es = entries_of(L, "vector._compute.lorentz.t")
     ctx.anchor("lorentz.t entries", len(es), 12)
@@ -104,12 +118,23 @@ def run(ctx):
         stored = node.kind == "param"
         if stored:
             continue  # stored t: any real, the statement concerns t derived from tau
-        ctx.ob("C13.range", e.name, iv.lo >= 0, f"t derived from tau ranges over {iv}", {"interval": repr(iv)}, fn_where(e.fn),
+        proven = iv.lo >= 0
+        cex = None
+        if not proven:
+            cex = interval.find_counterexample(node, 0.0, INF)
+            if cex is None:
+                raise AnalysisError(f"UNDECIDED C13.range {e.name}: interval {iv} does not prove t >= 0 and no counterexample was found")
+        ctx.ob("C13.range", e.name, proven, f"t derived from tau: {cex}", {"counterexample": cex, "interval": repr(iv)}, fn_where(e.fn),
                sample={"interval": repr(iv), "expr": ir.show(node)[:160]})
         top_txt = ir.show(node.a[1][0])[:100] if node.kind == "lib" and node.a[1] else None
         for fn, arg, ok, txt in I.definedness:
             if fn == "sqrt" and node.kind == "lib" and node.a[0] == "sqrt" and txt == top_txt:
-                ctx.ob("C13.defined", f"{e.name}:{fn}({txt[:60]})", ok, f"sqrt argument ranges over {arg}: NaN possible", None, fn_where(e.fn))
+                cex = None
+                if not ok:
+                    cex = interval.find_counterexample(node, -INF, INF)
+                    if cex is None or "problem" not in cex:
+                        raise AnalysisError(f"UNDECIDED C13.defined {e.name}: sqrt argument ranges over {arg}; not provable and no counterexample found")
+                ctx.ob("C13.defined", f"{e.name}:{fn}({txt[:60]})", ok, f"{cex['problem'] if cex else ''} at {cex['point'] if cex else ''} (NaN)", {"counterexample": cex}, fn_where(e.fn))
 
     # ---- signs ----------------------------------------------------------------------------
     LF = lift.Lifting(L)
